@@ -35,6 +35,7 @@ const (
 type step struct {
 	Op   string `json:"op"` // conn reply_ok reply_fail reply_unsup reply_garbage broker_close hello cancel barrier
 	G    *greet `json:"g,omitempty"`
+	Echo *greet `json:"echo,omitempty"` // reply_ok: extra attributes the broker puts into its success reply (ClaimId per Form)
 	Msg  string `json:"msg,omitempty"`
 	Racy bool   `json:"racy,omitempty"` // do not wait for the effect before the next step
 	IDOf int    `json:"id_of,omitempty"`
@@ -270,7 +271,11 @@ func (r *runner) runScript(ctx context.Context, b *liveBroker) {
 			// wait until the requester has torn the broker connection down
 			r.wait(b.bconn.done)
 		case "reply_ok":
-			_ = ccb.WriteControlAd(ctx, b.strm, ccb.NewAd(map[string]any{ccb.AttrResult: true}))
+			if st.Echo != nil {
+				e := st.Echo.resolve(b.id, r.sc.PrevID)
+				st.Echo = &e
+			}
+			_ = ccb.WriteControlAd(ctx, b.strm, ccb.NewAd(okReplyFields(st.Echo)))
 		case "reply_fail":
 			_ = ccb.WriteControlAd(ctx, b.strm, ccb.NewAd(map[string]any{ccb.AttrResult: false, ccb.AttrErrorString: st.Msg}))
 			if !st.Racy {
